@@ -644,3 +644,8 @@ SUBS = [
     Sub("files", check_files, strategy=file_case, quick=64, thorough=640),
 ]
 KNOWN = {}
+
+# the method interface reaches the same functions (shared exhaustive sub-check, see pv/fluent.py)
+from pv import fluent  # noqa: E402
+SUBS.append(fluent.sub(ID))
+RULE += fluent.RULE
